@@ -14,7 +14,7 @@ class FlowDemux(Device):
     def put(self, packet: Packet):
         self.packets_recevied += 1
         flow_id = packet.flow_id
-        if flow_id < len(self.outs):
+        if 0 <= flow_id < len(self.outs):
             self.outs[flow_id].put(packet)
         else:
             if self.default_out:
